@@ -2,6 +2,8 @@
 
 State: `custom` (name -> label of the registered custom certificate, later registrations win) and a FIFO of
 generated keys with capacity `cap`.  Names are plain tuples: ("dns", "a.example.com") / ("ip", "10.0.0.1").
+Other SAN kinds: ("email", text), ("uri", text) match a registration only under exactly that text;
+("dirname" | "rid" | "other", text) match nothing.
 The wildcard rules are the store's documented ones: a DNS name a.b.c is looked up as a.b.c, *.b.c, *.c; an IP
 address only literally; "*" matches everything.
 """
@@ -23,8 +25,9 @@ def lookup_names(cn: str | None, sans: list[tuple[str, str]]) -> list[str]:
     for kind, value in sans:
         if kind == "dns":
             out.extend(forms(value))
-        else:
-            out.append(value)
+        elif kind in ("ip", "email", "uri"):
+            out.append(value)  # exact string only, never wildcard forms
+        # DirectoryName / RegisteredID / OtherName name no host: they match no registration
     out.append("*")
     return out
 
